@@ -17,7 +17,7 @@ def compile_one(layer, q):
     try:
         return layer.compile(metrics=q["metrics"], dimensions=q["dims"], filters=[E.render(f) for f in q["filters"]] or None,
                              order_by=[f + (" DESC" if d else "") for f, d in q.get("order_by", [])] or None, limit=q.get("limit"), offset=q.get("offset"),
-                             use_preaggregations=bool(q.get("use_preagg")))
+                             use_preaggregations=bool(q.get("use_preagg")), dialect=q.get("dialect"))
     except Exception as e:  # noqa: BLE001
         return "ERROR " + type(e).__name__ + ": " + str(e)[:200]
 
